@@ -38,6 +38,8 @@ func init() {
 			Run: func(P *Program, R *Report) { treeRejectionsRule(P, R, "C18.g", "loadkeys", "the key loading call tree") }},
 		Rule{ID: "C18.h", Explain: "decoders do not write their input: in every Unmarshal*/Decode* method of the module the []byte (or string) it is given is never the target of a store, of copy(), or the destination argument of an encoding Decode/Read call - the same bytes are decoded again by the caller (ProofList.UnmarshalJSON tries two types on one raw message) and by json's own machinery.",
 			Run: func(P *Program, R *Report) { decodersKeepInputRule(P, R) }},
+		Rule{ID: "C18.i", Explain: "the product an event list computes while being decoded is the product of all decoded events, accumulated into a fresh integer (same rule as C10.k): a short or aliased product breaks the witness update that later uses it / the round trip of the first event.",
+			Run: func(P *Program, R *Report) { decodedProductRule(P, R, "C18.i") }},
 		Rule{ID: "C18.f", Explain: "XML tags of PublicKey/PrivateKey: no duplicate or empty element names; every field that is not serialised (xml:\"-\") is recomputed by the loaders.",
 			Run: func(P *Program, R *Report) { xmlTagsRule(P, R) }},
 	)
